@@ -99,7 +99,7 @@ class Monitor(object):
             hub.flags.add("ran")
         if self.entry[0] == "max_time":
             T = self.entry[1]
-            pend = min(nd.next_event_date for nd in Q.active_nodes)
+            pend = min(nd.next_event_date for nd in Q.nodes[:-1])
             if pend < T:
                 hub.violate("C14", "stopped_before_horizon", {"T": T, "pending": pend})
             A = Q.nodes[0].number_of_individuals
